@@ -191,7 +191,7 @@ static int fork_run(const Plan &p, const std::string &dir, long idx, uint64_t se
     }
     std::ostringstream o;
     Hash shape; for (auto &x : p.ops) shape.u64((uint64_t) x.kind);
-    Hash hh; hh.str(obs_doc); hh.str(blind_doc); hh.str(line_b.substr(0, line_b.find(",\"hash\"")));
+    Hash hh; hh.str(obs_doc); hh.str(blind_doc); hh.str(json_field(line_b, "oracle")); hh.str(json_field(line_b, "op_index")); hh.str(json_field(line_b, "verdict"));
     o << "{\"idx\":" << idx << ",\"seed\":" << seed << ",\"lane\":\"" << p.swarm.lane << "\",\"verdict\":\"viol\",\"oracle\":\"" << oracle << "\",\"op_index\":" << opi
       << ",\"op\":\"" << op << "\",\"arg_class\":\"" << ac << "\",\"detail\":\"" << jesc(detail.substr(0, 600)) << "\",\"hash\":\"" << hex64(hh.h)
       << "\",\"shape\":\"" << hex64(shape.h) << "\",\"nops\":" << p.ops.size() << ",\"final_state\":\"0\",\"nstates\":0,\"ntriples\":0,\"triples\":[],\"states\":[],\"cnt\":{\"twin.unobserved_history_differs\":1}}";
